@@ -331,6 +331,25 @@ def run_trading(rnd, S, cfgk, intensity=1.0, script=None, analyser=False, ids=No
                     r2 = close_fn(oid, 2)
                     return [r1, r2]
                 out.append(ft)
+        if phase == "AUC" and plan.get("two_closes") and plan["fut"] and plan["bars"] == 1 and reseed_key is None:
+            # second day's auction: yesterday's 2 lots + 3 lots opened at the open; then TWO limit closes of 2 lots each, both created before either fills (they rest
+            # in the auction and fill one after the other on the day bar): the first uses up yesterday's lots, the second closes lots opened TODAY (close-today fee)
+            oid, side = plan["fut"]
+            frec = next(x for x in S["futures"] if x["id"] == oid)
+            try:
+                bar = frec["bars"].get(S["cal"].index(env.trading_dt.date()))
+            except ValueError:
+                bar = None
+            if bar is not None and bar[5] >= 20 and ((side == "long" and bar[2] >= bar[1] + 2) or (side == "short" and bar[2] <= bar[1] - 2)):
+                def f2t(call, before, oid=oid, side=side, lim=float(round((bar[1] + bar[2]) / 2))):
+                    call.update(api="plan_future_two_resting_closes", args=(oid, side, lim))
+                    r0 = (api.buy_open if side == "long" else api.sell_open)(oid, 3)
+                    close_fn = api.sell_close if side == "long" else api.buy_close
+                    r1 = close_fn(oid, 2, price_or_style=LimitOrder(lim))
+                    r2 = close_fn(oid, 2, price_or_style=LimitOrder(lim))
+                    return [r0, r1, r2]
+                out.append(f2t)
+            return out
         # two auction limit orders on one instrument that both rest through the auction and both fill on the day bar (one matching pass)
         if S.get("_trade_handler_acts") and phase == "AUC" and stocks and "STOCK" in context.portfolio.accounts and reseed_key is None:
             try:
@@ -417,6 +436,7 @@ def run_trading(rnd, S, cfgk, intensity=1.0, script=None, analyser=False, ids=No
             plan["generic"] = bool(S.get("_plan_generic_close")) and srnd.random() < 0.35
             plan["ct_twice"] = (not plan["generic"]) and srnd.random() < 0.4
             plan["typed_double"] = bool(S.get("_plan_generic_close")) and (not plan["generic"]) and (not plan["ct_twice"]) and srnd.random() < 0.6
+            plan["two_closes"] = (not plan["generic"]) and (not plan["ct_twice"]) and (not plan["typed_double"]) and srnd.random() < 0.5
             plan["cash_edge_day"] = srnd.randrange(1, 5) if (stocks and "STOCK" in context.portfolio.accounts and srnd.random() < 0.5) else 0
         if plan["fut"]:
             oid, side = plan["fut"]
@@ -426,7 +446,7 @@ def run_trading(rnd, S, cfgk, intensity=1.0, script=None, analyser=False, ids=No
                     call.update(api="plan_future_open", args=(oid, side, 2))
                     return [open_fn(oid, 2)]
                 out.append(f1)
-            elif day == 2 and (plan.get("generic") or plan.get("typed_double")):
+            elif day == 2 and (plan.get("generic") or plan.get("typed_double") or plan.get("two_closes")):
                 pass
             elif day == 2 and plan.get("ct_twice"):
                 def f2c(call, before, oid=oid, side=side, open_fn=open_fn, close_fn=close_fn):
